@@ -990,7 +990,7 @@ pub fn install_panic_hook() {
             "<non-string panic>".to_string()
         };
         let loc = info.location().map(|l| format!("{}:{}", l.file(), l.line())).unwrap_or_default();
-        if std::env::var("FZ_DEBUG").is_ok() && !loc.contains("/repo/") && !loc.contains(".cargo/registry") {
+        if std::env::var("FZ_DEBUG").map_or(false, |v| v == "all" || (!loc.contains("/repo/") && !loc.contains(".cargo/registry"))) {
             eprintln!("panic: {msg} at {loc}");
         }
         LAST_PANIC.with(|p| *p.borrow_mut() = format!("{msg} at {loc}"));
